@@ -40,7 +40,9 @@ def classify(msg):
 
 
 def run(path, rlimit=None, seed=None, extra=(), timeout=1800, threads=None):
-    cmd = ['verus', '--edition=2024', path, '--error-format=json', '--output-json', '--time', '--multiple-errors', '8']
+    cmd = ['verus', '--edition=2024', path, '--error-format=json', '--output-json', '--time']
+    if '--multiple-errors' not in extra:
+        cmd += ['--multiple-errors', '8']
     if rlimit:
         cmd += ['--rlimit', str(rlimit)]
     if seed is not None:
